@@ -880,6 +880,10 @@ class _MIPS32_ELF(ABI):
     def temporary_label_prefix(self) -> str:
         return ".L"
 
+    def byteorder(self) -> Literal["little", "big"]:
+        # We assemble MIPS32 for the big-endian "mips" target triple.
+        return "big"
+
     def default_dwarf_eh_return_column(self) -> int:
         return 32
 
